@@ -401,6 +401,30 @@ func (c03) RunBatch(ctx *core.Ctx, batch int) {
 			ctx.Case(text, func() { c03Compound(ctx, t, text, "") })
 		}
 	default:
+		if batch == p.nLeaf+p.nComp {
+			for _, t := range qt.RelationTrees() {
+				t := t
+				ff := false
+				t.Walk(func(x *qt.Node) {
+					if x.Kind == qt.KFuzzy || x.Kind == qt.KBoost || x.Kind == qt.KGroup {
+						ff = true
+					}
+				})
+				if ff {
+					continue
+				}
+				text := qt.Print(t, qt.Style{})
+				if t.Kind == qt.KRange || t.Kind == qt.KCmp {
+					continue // single ranges and comparisons are the business of the leaf classes
+				}
+				if t.IsLeaf() {
+					ctx.Case(text, func() { c03Leaf(ctx, leafCase{"relation", t, ""}, text, true) })
+				} else {
+					ctx.Case(text, func() { c03Compound(ctx, t, text, "") })
+				}
+				ctx.Count("relation_trees", 1)
+			}
+		}
 		r := ctx.Rand("deep")
 		leaves := fragLeaves(true)
 		for i := 0; i < 400; i++ {
